@@ -556,6 +556,12 @@ func init() {
 	reg(&propDef{id: "C11", level: "exploration", crashIsViol: false,
 		batches: []batch{{name: "flowfaults", quick: 2600, thorough: 100000}},
 		rule:    "each evaluation is one simulated transfer in which, after the ACT has been written towards the server, one fault is injected at a tape-chosen message: a direction (or both) goes silent, a link closes or starts failing writes, a destination write fails (optionally after a short write), a source read fails, the source file shrinks under the reader, or one process is stalled for T/2, 1.5T or 3T; non-trivial = the fault fired and termination, reports, fail lines and the goroutine-leak monitor were all evaluated; distinct = distinct (configuration + fault kind + hop, schedule-trace hash, tape hash)"})
+	reg(&propDef{id: "C10", level: "exploration", crashIsViol: false,
+		batches: []batch{{name: "stops", quick: 2400, thorough: 90000}},
+		rule:    "each evaluation is one simulated transfer stopped at a tape-chosen message after the handshake by one of: user Ctrl-C plus prompt keys through the real promptui prompt (keep / delete), the public StopTransferringFiles(bool), SIGINT or SIGTERM delivered to the server main; non-trivial = the stop fired and termination bound, reports, delete/keep semantics and bystander files were all evaluated; distinct = distinct (configuration + stop kind, schedule-trace hash, tape hash)"})
+	reg(&propDef{id: "C18", level: "exploration", crashIsViol: false,
+		batches: []batch{{name: "pauses", quick: 2400, thorough: 90000}},
+		rule:    "each evaluation is one simulated transfer (protocol 3 or 4, T in {2,5,20} s) paused 1-3 times at tape-chosen messages by Ctrl-C and continued through the real prompt after a think time of 0.02T..3T; non-trivial = at least one pause/continue cycle completed and the outcome rules (short pause => success with identical files; long pause => success or error, never a hang or a wrong file) and the no-data-while-paused monitor were evaluated; distinct = distinct (configuration + pause band + cycles, schedule-trace hash, tape hash)"})
 	reg(&propDef{id: "C07", level: "exploration", crashIsViol: true,
 		batches: []batch{{name: "collisions", quick: 1200, thorough: 40000}},
 		rule:    "each evaluation is one simulated transfer without -y into an adversarially pre-populated destination (colliding files/dirs, name.N series with gaps, names at the length limit, all 1001 candidate names taken, repeated transfer of the same sources); non-trivial = the receive completed (or failed as it must) and the before/after snapshot (inode, size, hash, mtime) was compared; distinct = distinct (prior-state class + configuration, schedule-trace hash)"})
